@@ -310,8 +310,17 @@ def sc_mapping(rng, consts, nparams, op):
         sc.obs(t)                                              # no mapping yet: everything throws
         sc.emit('settmap %s %s' % (t, m), 'ok')
         sc.obs(t)                                              # mapping without result
-        sc.emit('setresult %s %s' % (m, sc.expr()), 'ok')
+        # the result of a mapping may be any expression -- another Mapping (a curried template: member template of a class template), a
+        # Lambda, the mapping's own parameter list included: result() is that node, whatever it is
+        inner = sc.nodes('mapping %s #%d' % (region, 1 + rng.randrange(3)), 4)
+        sc.emit('setresult %s %s' % (inner[0], sc.lit()), 'ok')
+        lam = sc.nodes('lambda %s #%d' % (region, rng.randrange(3)), 4)
+        results = [sc.expr(), inner[0], lam[0], other[0], inner[1]]
+        sc.emit('setresult %s %s' % (m, results[sc.fresh % len(results)]), 'ok')
         sc.obs(t)
+        for r in rng.sample(results, 2):
+            sc.emit('setresult %s %s' % (m, r), 'ok')
+            sc.obs(t)
         if rng.random() < 0.5:
             sc.emit('settmap %s %s' % (t, other[0]), 'ok')
             sc.obs(t)
@@ -328,7 +337,7 @@ def sc_mapping(rng, consts, nparams, op):
             sc.obs(t2)
             sc.emit('settmap %s %s' % (t2, m2), 'ok')
             sc.obs(t2)
-            sc.emit('setresult %s %s' % (m2, sc.expr()), 'ok')
+            sc.emit('setresult %s %s' % (m2, rng.choice(results)), 'ok')
             sc.obs(t2)
         (ft,) = sc.nodes('mk Function %s %s %s' % (prod, rng.choice(sc.types), sc.lit()), 1)
         (f,) = sc.nodes('fundecl %s %s %s' % (region, sc.ident(), ft), 1)
@@ -552,6 +561,37 @@ def sc_equalities(rng, consts, nwords):
     return sc
 
 
+def sc_long_spellings(rng, consts, nwords, size):
+    """Equality exactly for equal spellings, for spellings that are LONG: `nwords` different linkages / conventions of about `size` bytes
+    each -- together more than the Lexicon's string storage sets aside at a time, so the storage is extended while they are made --
+    each compared with its neighbours in order of creation (and itself, asked for again at the end), each read back afterwards."""
+    sc = Scenario(rng, consts, 'equalities/long-spellings/%dx%d' % (nwords, size))
+    sc.families |= {'equality', 'string', 'logogram', 'value-accessors'}
+    words, seen = [], set()
+    while len(words) < nwords:
+        unit = sc.word('L')
+        w = (unit * (size // len(unit) + 1))[:size + rng.randrange(-40, 40)]
+        if w not in seen:
+            seen.add(w); words.append(w)
+    links, ccs = [], []
+    for i, w in enumerate(words):
+        links.append(sc.link(w))
+        if i % 3 == 0: ccs.append(sc.cc(w))
+    again = [sc.link(w) for w in words[-8:]] + [sc.link(words[k]) for k in range(0, nwords, max(1, nwords // 16))]
+    for fam in (links, ccs):
+        for i, a in enumerate(fam):
+            sc.emit('eqrow %s %s' % (a, ' '.join(fam[max(0, i - 2):i + 3])))
+        for v in fam:
+            sc.emit('vobs ' + v)
+    for w in words:                       # what each spelling reads now that all of them have been made
+        sc.emit('sobs s%d' % sc.strs[w])
+    small = again + [sc.link(w) for w in rng.sample(words, 8)]        # (new value tokens: one row per token)
+    for a in small:
+        sc.emit('eqrow %s %s' % (a, ' '.join(small)))
+    sc.counts = {'Linkage': len(links) + len(again), 'Calling_convention': len(ccs)}
+    return sc
+
+
 def scenarios(tier, rng, consts):
     out = []
     reps = 4 if tier == 'quick' else 25
@@ -578,6 +618,7 @@ def scenarios(tier, rng, consts):
     for i in range(0, len(kinds), chunk):
         out.append(sc_mk(rng, consts, kinds[i:i + chunk], 3 if tier == 'quick' else 12))
     out.append(sc_equalities(rng, consts, 42 if tier == 'quick' else 70))
+    out.append(sc_long_spellings(rng, consts, 300 if tier == 'quick' else 900, 4000))
     if tier == 'thorough':
         out.append(sc_equalities(rng, consts, 45))
     return out
